@@ -273,6 +273,24 @@ theorem invK {s : State κ ν} (hr : Reach (lts fixedCfg) s) : InvK s := by
   | init => simp [InvK, lts, init]
   | step a _ hst ih => exact invK_step ih hst
 
+/-! ### the remembered root is a head, and it is the item the loop is working on -/
+
+def InvR (s : State κ ν) : Prop :=
+  (∀ h, s.root = some h → IsMin s.q h) ∧
+  (∀ r h, (s.pc = .peeked r ∨ s.pc = .polled r ∨ s.pc = .arming r ∨ s.pc = .armed r ∨ s.pc = .firing r) →
+    s.root = some h → h = r)
+
+theorem invR_step {s s' : State κ ν} {a : Label κ ν} (h : InvR s)
+    (hst : step fixedCfg s a = some s') : InvR s' := by
+  unfold InvR at *
+  cases a <;> step_cases hst <;> (try (simp only [process]; split)) <;> (try split) <;>
+    (first | grind | (simp_all [IsHead]; done) | (simp_all [IsHead]; grind))
+
+theorem invR {s : State κ ν} (hr : Reach (lts fixedCfg) s) : InvR s := by
+  induction hr with
+  | init => simp [InvR, lts, init]
+  | step a _ hst ih => exact invR_step ih hst
+
 /-- `taus` is complete: every enabled internal label is listed (so "no `taus`" = "no internal
 step", which is what the driver's `quiet` check and `stranded_witness` rely on). -/
 theorem taus_complete {cfg : Cfg} {s s' : State κ ν} {l : Label κ ν} (hi : l.isInternal = true)
@@ -290,7 +308,7 @@ theorem taus_complete {cfg : Cfg} {s s' : State κ ν} {l : Label κ ν} (hi : l
         simp only [step] at hst
         split at hst <;> try contradiction
         split at hst <;> try contradiction
-        rename_i h; exact h.1
+        rename_i h; exact h.1.1
       simp [this]
   case execCheck hd =>
     cases hd with
@@ -300,7 +318,7 @@ theorem taus_complete {cfg : Cfg} {s s' : State κ ν} {l : Label κ ν} (hi : l
         simp only [step] at hst
         split at hst <;> try contradiction
         split at hst <;> try contradiction
-        rename_i h; exact h.1
+        rename_i h; exact h.1.1
       simp [this]
 
 /-- Run a list of labels. -/
